@@ -1,5 +1,6 @@
 import AC.HelpersX
 import AC.BigintTie
+import AC.BigintsTie
 /-! # C19 — multi-precision helpers agree with their mathematical definitions
 
 Models (the functions the correspondence run compares with internal/bigint, internal/bigints,
@@ -224,5 +225,56 @@ theorem C19_src_small (x y : Int) (e : Nat) :
     AC.Gen.Bigint.clone x = x ∧ AC.Gen.Bigint.pow2 e = (2 : Int) ^ e :=
   ⟨AC.BigintTie.equal_iff x y, AC.BigintTie.equalInt64_iff x y, AC.BigintTie.isZero_iff x,
    AC.BigintTie.isNonZero_iff x, AC.BigintTie.clone_eq x, AC.BigintTie.pow2_eq e⟩
+
+/-! ## internal/bigints helpers as translated (harness/cmd/extract/gotr.go, `AC/BigintsTie.lean`) -/
+section SrcLists
+open AC.Gen.Program
+
+/-- translated `MergeUnique` of sorted distinct lists: never panics, never out of loop fuel; the result
+    is sorted distinct and its members are the union -/
+theorem C19_src_mergeUnique (xs ys : List Int) (hx : xs.Pairwise (· < ·)) (hy : ys.Pairwise (· < ·)) :
+    ∃ r, bigintsMergeUnique xs ys = some r ∧ r.Pairwise (· < ·) ∧ ∀ a, a ∈ r ↔ a ∈ xs ∨ a ∈ ys :=
+  ⟨_, AC.BigintsTie.mergeUnique_tie xs ys, C19_mergeUnique xs ys hx hy⟩
+
+/-- translated `InsertSortedUnique` -/
+theorem C19_src_insertSortedUnique (xs : List Int) (x : Int) (hx : xs.Pairwise (· < ·)) :
+    ∃ r, bigintsInsertSortedUnique xs x = some r ∧ r.Pairwise (· < ·) ∧ ∀ a, a ∈ r ↔ a = x ∨ a ∈ xs :=
+  ⟨_, AC.BigintsTie.insertSortedUnique_tie xs x, C19_insertSortedUnique xs x hx⟩
+
+/-- translated `Unique`: on sorted input strictly ascending with the same members; on any input exactly
+    the consecutive duplicates are removed -/
+theorem C19_src_unique (xs : List Int) :
+    ∃ r, bigintsUnique xs = some r ∧ (∀ a, a ∈ r ↔ a ∈ xs) ∧ NoAdj r ∧
+      (xs.Pairwise (· ≤ ·) → r.Pairwise (· < ·)) :=
+  ⟨_, AC.BigintsTie.unique_tie xs, mem_uniq xs, (C19_unique_general xs).1, fun hs => pairwise_uniq xs hs⟩
+
+/-- translated `Contains` / `Index` -/
+theorem C19_src_contains (n : Int) (xs : List Int) :
+    bigintsContains n xs = some (decide (n ∈ xs)) := by
+  rw [AC.BigintsTie.contains_tie]; congr 1; simp
+
+theorem ne_before_idxOf (n : Int) : ∀ (xs : List Int) (j : Nat), j < xs.idxOf n → xs[j]? ≠ some n := by
+  intro xs
+  induction xs with
+  | nil => intro j h; simp at h
+  | cons x xs ih =>
+    intro j h
+    rw [List.idxOf_cons] at h
+    by_cases hx : x = n
+    · simp [hx] at h
+    · have hb : (x == n) = false := by simp [hx]
+      rw [hb] at h
+      cases j with
+      | zero => simp [hx]
+      | succ j => simp only [List.getElem?_cons_succ]; exact ih j (by simpa using h)
+
+theorem C19_src_index (n : Int) (xs : List Int) :
+    ∃ r, bigintsIndex n xs = some r ∧ (n ∉ xs → r = -1) ∧
+      (n ∈ xs → ∃ k, k < xs.length ∧ r = (k : Int) ∧ xs[k]? = some n ∧ ∀ j, j < k → xs[j]? ≠ some n) := by
+  refine ⟨_, AC.BigintsTie.index_tie n xs, fun h => by simp [h], fun h => ?_⟩
+  refine ⟨xs.idxOf n, List.idxOf_lt_length_of_mem h, by simp [h], ?_, ?_⟩
+  · simp [List.getElem?_eq_getElem (List.idxOf_lt_length_of_mem h)]
+  · exact fun j hj => ne_before_idxOf n xs j hj
+end SrcLists
 
 end AC.Props.C19
